@@ -19,8 +19,11 @@ KNOWN_FILE = os.path.join(VERIF, 'KNOWN_FINDINGS.txt')
 MAX_UNKNOWN = 6          # stop exploring after this many distinct unknown witnesses
 MIN_BUDGET = 300         # check evaluations per minimisation
 MIN_TOTAL_SECONDS = 90.0  # ... seconds of exhaustive minimisation per worker process in one run
-GREEDY_BUDGET = 600      # evaluations of the greedy fallback descent
+GREEDY_BUDGET = 1500     # evaluations of the greedy fallback descent
+GREEDY_SECONDS = 20.0
+FULL_MINIMISATIONS_PER_CLAUSE = 12
 MIN_SECONDS = 15.0       # wall time per minimisation
+CHUNK_SECONDS = 240.0    # wall time after which a worker returns a chunk unfinished
 CHUNK_WITNESS_CAP = 8    # a worker stops a chunk once it holds this many distinct witnesses
 
 # ----------------------------------------------------------------------------- counters
@@ -106,6 +109,7 @@ def load_known():
 # ----------------------------------------------------------------------------- minimisation
 
 _MIN_SPENT = [0.0]        # seconds spent minimising in this worker process
+_MIN_COUNT = {}           # clause -> failing cases minimised so far in this worker
 
 
 def _clauses_of(prop, case, memo, counter):
@@ -132,7 +136,10 @@ def minimise(prop, case, clause, memo, budget=MIN_BUDGET):
     stack = [case]
     visited = set()
     counter = [0]
-    exhausted = _MIN_SPENT[0] > MIN_TOTAL_SECONDS
+    _MIN_COUNT[clause] = _MIN_COUNT.get(clause, 0) + 1
+    # full exploration for the first failing cases of a clause; afterwards (or when the worker has
+    # already spent its budget) only the cheap greedy descent
+    exhausted = _MIN_SPENT[0] > MIN_TOTAL_SECONDS or _MIN_COUNT[clause] > FULL_MINIMISATIONS_PER_CLAUSE
     while stack and not exhausted:
         cur = stack.pop()
         k = case_key(cur)
@@ -160,7 +167,7 @@ def minimise(prop, case, clause, memo, budget=MIN_BUDGET):
         while True:
             nxt = None
             for red in reduce_fn(cur):
-                if counter[0] >= GREEDY_BUDGET or time.time() - t1 > MIN_SECONDS:
+                if counter[0] >= GREEDY_BUDGET or time.time() - t1 > GREEDY_SECONDS:
                     break
                 if clause in _clauses_of(prop, red, memo, counter):
                     nxt = red
@@ -197,8 +204,14 @@ def _run_chunk(chunk):
            'sample': None}
     nontrivial = getattr(prop, 'nontrivial', None)
     outcome = getattr(prop, 'outcome', None)
+    t_chunk = time.time()
     try:
-        for case in chunk:
+        for ci, case in enumerate(chunk):
+            if time.time() - t_chunk > CHUNK_SECONDS:
+                # the code under test has become pathologically slow (e.g. state that grows with every
+                # call): hand back what was found so far instead of blocking the run
+                res['incomplete'] = len(chunk) - ci
+                break
             k = case_key(case)
             res['n'] += 1
             res['keys'].append(k)
@@ -252,6 +265,8 @@ def _chunks(it, size):
 
 def run_property(pid, tier, seed, jobs=None, time_cap=None):
     t_start = time.time()
+    if time_cap is None:
+        time_cap = float(os.environ.get('VERIF_TIME_CAP') or (1500 if tier == 'quick' else 4 * 3600))
     prop = load_prop(pid)
     known, _fixed = load_known()
     jobs = jobs or min(16, os.cpu_count() or 4)
@@ -271,11 +286,23 @@ def run_property(pid, tier, seed, jobs=None, time_cap=None):
     pool = ctx.Pool(jobs, initializer=_worker_init, initargs=(pid, None))
     try:
         gen = prop.cases(tier, seed)
-        for res in pool.imap_unordered(_run_chunk, _chunks(gen, chunk_size)):
+        results = pool.imap_unordered(_run_chunk, _chunks(gen, chunk_size))
+        while True:
+            try:
+                res = results.next(timeout=5)
+            except mp.TimeoutError:
+                if time_cap and time.time() - t_start > time_cap:
+                    capped = 'time cap %ss reached while waiting for workers' % time_cap
+                    break
+                continue
+            except StopIteration:
+                break
             if res['error']:
                 error = res['error']
                 break
             agg['n'] += res['n']
+            if res.get('incomplete'):
+                agg['incomplete'] = agg.get('incomplete', 0) + res['incomplete']
             agg['keys'].update(res['keys'])
             agg['nontrivial'].update(res['nontrivial'])
             agg['transitions'] += res['transitions']
@@ -363,6 +390,9 @@ def run_property(pid, tier, seed, jobs=None, time_cap=None):
         'known_finding_hits': ['%s %s' % (c, w) for (c, w, _t) in known_hits],
         'workers': jobs,
     }
+    if agg.get('incomplete'):
+        capped = (capped + '; ' if capped else '') + '%d cases skipped because chunks exceeded %ss' % (agg['incomplete'], CHUNK_SECONDS)
+        coverage['exhaustive'] = False
     if capped:
         coverage['cap'] = capped
     extra = plan.get('coverage_extra')
